@@ -404,8 +404,46 @@ class ProgGen:
             return self.events(env, min(d, 2))
         return ["call", "sum_durations", [self.events(env, min(d, 1))]]
 
+    def with_var(self, v, depth):
+        """an expression tree in which the variable v occurs at nesting depth 1..depth (inside lists, dicts, calls)"""
+        r = self.rng
+        if depth <= 0:
+            return ["var", v]
+        inner = self.with_var(v, depth - 1)
+        sib = lambda: self.any({}, 0)  # noqa: E731
+        c = r.random()
+        if c < 0.4:
+            items = [sib() for _ in range(r.randrange(0, 3))]
+            items.insert(r.randrange(len(items) + 1), inner)
+            return ["list", items]
+        if c < 0.65:
+            entries = [[k, sib()] for k in r.sample(["a", "b", "k v", "regex"], r.randrange(0, 3))]
+            entries.insert(r.randrange(len(entries) + 1), ["key", inner])
+            return ["dict", entries]
+        n = r.randrange(1, 4)
+        args = [sib() for _ in range(n - 1)]
+        args.insert(r.randrange(n), inner)
+        return ["call", f"vp{n}", args]
+
+    def reeval_program(self):
+        """x = A; a = E(x); x = B; b = E(x); RETURN = [a, b, x] - the same expression text is evaluated twice around a
+        rebinding of a variable it mentions at some nesting depth"""
+        r = self.rng
+        v = r.choice(_VARS)
+        first, second = (["int", r.randrange(0, 50)], ["int", r.randrange(50, 99)]) if r.random() < 0.5 else (
+            self.lit_str(["alpha", "beta"]), self.lit_str(["gamma", "it's"]))
+        e = self.with_var(v, r.randrange(1, 5))
+        a, b_ = r.sample([x for x in _VARS if x != v], 2)
+        prog = [[v, first], [a, e], [v, second], [b_, copy.deepcopy(e)]]
+        if r.random() < 0.3:
+            prog.insert(2, [r.choice([x for x in _VARS if x not in (v, a, b_)]), self.any({v: "any"}, 2)])
+        prog.append(["RETURN", ["call", "vp3", [["var", a], ["var", b_], ["var", v]]]])
+        return prog
+
     def program(self):
         r = self.rng
+        if r.random() < 0.15:
+            return self.reeval_program()
         env = {}
         prog = []
         n = r.randrange(1, 9)
